@@ -52,6 +52,10 @@ type Auto struct {
 	BrokerPubrel bool `json:"broker_pubrel,omitempty"`
 	// ClientRegack: the client answers the gateway's REGISTER with REGACK(accepted).
 	ClientRegack bool `json:"client_regack,omitempty"`
+	// StrictRegister: the client keeps its name -> topic ID table a function, as bisquitt's own client
+	// does: a gateway REGISTER for a name it already holds under another ID is answered with
+	// REGACK(invalid topic ID) instead of being accepted.
+	StrictRegister bool `json:"strict_register,omitempty"`
 	// RegackRC: the return code of that REGACK (0 = accepted; 1..3 = the client refuses the registration).
 	RegackRC byte `json:"regack_rc,omitempty"`
 	// ClientAcks: the client acknowledges broker publishes (PUBACK / PUBREC, PUBCOMP on PUBREL).
@@ -176,6 +180,44 @@ type Session struct {
 	endSeen bool
 	stopEnforce func()
 	evMu        sync.Mutex
+	// the reactive client's own bookkeeping (StrictRegister): names it holds an ID for, requests pending
+	clNames   map[string]uint16
+	clPendReg map[uint16]string
+	clPendSub map[uint16]string
+}
+
+// clientLearn keeps the reactive client's name -> ID table (what it registered itself and got
+// acknowledged, what SUBACKs told it, which gateway REGISTERs it accepted).
+func (s *Session) clientLearn(e Event, accepted bool) {
+	if e.SN == nil {
+		return
+	}
+	if s.clNames == nil {
+		s.clNames, s.clPendReg, s.clPendSub = map[string]uint16{}, map[uint16]string{}, map[uint16]string{}
+	}
+	p := e.SN
+	switch {
+	case e.Dir == CG && p.Type == snref.REGISTER:
+		s.clPendReg[p.MsgID] = p.TopicName
+	case e.Dir == CG && p.Type == snref.SUBSCRIBE && p.TIT == snref.TITNormal && !strings.ContainsAny(p.TopicName, "+#"):
+		s.clPendSub[p.MsgID] = p.TopicName
+	case e.Dir == GC && p.Type == snref.REGACK:
+		if n, ok := s.clPendReg[p.MsgID]; ok {
+			delete(s.clPendReg, p.MsgID)
+			if p.RC == 0 {
+				s.clNames[n] = p.TopicID
+			}
+		}
+	case e.Dir == GC && p.Type == snref.SUBACK:
+		if n, ok := s.clPendSub[p.MsgID]; ok {
+			delete(s.clPendSub, p.MsgID)
+			if p.RC == 0 && p.TopicID != 0 {
+				s.clNames[n] = p.TopicID
+			}
+		}
+	case e.Dir == GC && p.Type == snref.REGISTER && accepted:
+		s.clNames[p.TopicName] = p.TopicID
+	}
 }
 
 // Start launches a session (must be called inside a bubble).
@@ -239,6 +281,7 @@ func (s *Session) ClientSend(p snref.Pkt, auto bool) {
 	b := snref.Encode(p)
 	pp := p
 	s.ev(Event{Dir: CG, SN: &pp, Raw: b, Auto: auto})
+	s.clientLearn(Event{Dir: CG, SN: &pp}, false)
 	s.SN.Send(b)
 }
 
@@ -412,7 +455,21 @@ func Reactions(a Auto, e Event) (sn []snref.Pkt, mq []mqttref.Pkt) {
 func (s *Session) react(idx []int) bool {
 	sent := false
 	for _, i := range idx {
-		sn, mq := Reactions(s.auto, s.tr.Events[i])
+		e := s.tr.Events[i]
+		sn, mq := Reactions(s.auto, e)
+		if e.Dir == GC && e.SN != nil && e.SN.Type == snref.REGISTER {
+			for k := range sn {
+				if sn[k].Type != snref.REGACK {
+					continue
+				}
+				if id, ok := s.clNames[e.SN.TopicName]; s.auto.StrictRegister && ok && id != e.SN.TopicID {
+					sn[k].RC = 2 // invalid topic ID: the name is known under another ID
+				}
+				s.clientLearn(e, sn[k].RC == 0)
+			}
+		} else {
+			s.clientLearn(e, false)
+		}
 		for _, p := range mq {
 			s.BrokerSend(p, true)
 			sent = true
